@@ -115,7 +115,7 @@ Qed.
 (* ------------------------------------------------------------------ the condition of a class-0 join *)
 (* nested loop over a typed subquery-free condition, or a conjunction of usable keys *)
 Definition cond_ok (lw rw : nat) (c : sx) : Prop :=
-  (equi_keys c = [] /\ has_sub c = false /\ bare_ok [rw; lw] c = true /\ pform c = true) \/ pure_keys lw rw c = true.
+  (hash_path c = false /\ has_sub c = false /\ bare_ok [rw; lw] c = true /\ pform c = true) \/ pure_keys lw rw c = true.
 
 Lemma cond_ok_no_sub : forall lw rw c, cond_ok lw rw c -> has_sub c = false.
 Proof. intros lw rw c [[_ [H _]]|H]; [exact H|eapply pure_keys_no_sub; eauto]. Qed.
